@@ -23,6 +23,9 @@ class Hist:
     def __init__(self, rng, backend='mem', allow_dups=False):
         self.rng = rng
         self.ids = [1, 2, 3, 4][:rng.range(2, 4)]
+        if rng.chance(1, 5):
+            # document ids at the boundaries of the integer types a backend may store them in (SQLite: i64)
+            self.ids = rng.shuffle([1, 2 ** 63 - 1, 2 ** 63, 2 ** 64 - 1, 2 ** 32])[:rng.range(2, 4)]
         self.origins = rng.shuffle([1, 2, 3, 9])[:rng.range(1, 3)]
         self.t = (0 if rng.chance(1, 6) else T0) + rng.below(10 ** 5) * 4   # one history in six starts at the datacake epoch (D17)
         self.allow_dups = allow_dups
